@@ -51,6 +51,8 @@ def cases(tier):
         cs.append(('all', T, c))
     for n in (0, 1, 2): cs.append(('one', n))
     cs.append(('all-get',))
+    import itertools as _it2
+    for assign in _it2.product(('G1', 'G2', None), repeat=3): cs.append(('all-get-abs', assign))
     return cs
 
 def fs_setup(it, st, xs, c, with_doc=True):
@@ -64,7 +66,7 @@ def fs_setup(it, st, xs, c, with_doc=True):
         p = it.call(it.getattr(x, 'path'), [c], {})
         if p is None: ents.append((x, None, None, None)); continue
         ps = it.to_str(p); dp = it.to_str(it.call(gd, [p], {}))
-        k0, v0 = st.fresh_str(f'd{i}k_', nonempty=True), st.fresh_str(f'd{i}v_'); st.assume(st.norm(k0).z() != z3.StringVal('sid')); st.assume(st.norm(k0).z() != z3.StringVal('next.version'))     # 'next.version' is routed to the NextGetter plugin (C18)
+        k0, v0 = st.fresh_str(f'd{i}k_', nonempty=True), st.fresh_str(f'd{i}v_'); st.assume(st.norm(k0).z() != z3.StringVal('next.version'))     # 'next.version' is routed to the NextGetter plugin (C18)
         ents.append((x, ps, dp, PDict([(k0, v0)])))
     def initial(path):
         for x, ps, dp, D in ents:
@@ -90,7 +92,7 @@ def encoder(it, st, kind):
 def expect_record(it, st, name, d, doc_items, encoded, attributes=None, props=('C16',)):
     want = [(k, v) for k, v in doc_items]
     if encoded is not None:
-        want = [(k, v) for k, v in want if it.py_eq(k, 'sid') is not True] + [('sid', encoded)]
+        want = [(k, v) for k, v in want if not it.known_eq(k, 'sid')] + [('sid', encoded)]
     if attributes is not None:
         w2 = []
         for a in attributes:
@@ -117,6 +119,7 @@ def run(it, st, case):
     if kind == 'all': return run_all(it, st, case[1], case[2])
     if kind == 'one': return run_one(it, st, case[1])
     if kind == 'all-get': return run_all_get(it, st, c)
+    if kind == 'all-get-abs': return run_all_get_abs(it, st, case[1])
 
 def run_map_abs(it, st, recs, meth):
     """GetByFinder.get / do_get with get_data ABSTRACT: whatever get_data returns for a found Sid (a record, an empty record, None), the result has one
@@ -249,7 +252,7 @@ def run_all(it, st, T, c):
     if ps is None:
         st.oblige(f'{name}.get_data:a-sid-without-path-has-no-data', isinstance(d, PDict) and not d.items and a is None, ('C16',)); return 'ok'
     expect_record(it, st, f'{name}.get_data:is-the-record-of-the-configured-getter', d, D.items, it.to_str(x))
-    st.oblige(f'{name}.get_attr:is-one-value-of-that-record', it.py_eq(a, D.items[0][1]), ('C16',))
+    st.oblige(f'{name}.get_attr:is-one-value-of-that-record', it.py_eq(a, it.to_str(x) if it.known_eq(D.items[0][0], 'sid') else D.items[0][1]), ('C16',))      # the record's own 'sid' entry wins over a stored key of that name
     return 'ok'
 
 def run_one(it, st, n):
@@ -268,6 +271,45 @@ def run_one(it, st, n):
     if n == 0:
         st.oblige(f'{name}:nothing-found-gives-the-empty-record-and-None', isinstance(one, PDict) and not one.items and isinstance(dat, PDict) and not dat.items and att is None, ('C16',)); return 'ok'
     st.oblige(f'{name}:get_one-and-get_data-are-the-first-record-get_attr-its-value', one is recs[0] and dat is recs[0] and att is recs[0].items[1][1], ('C16',))
+    return 'ok'
+
+def run_all_get_abs(it, st, assign):
+    """GetFromAll.get with unfold_search / get_getter / each Getter's do_get ABSTRACT: the result is the concatenation of the answers of every Getter (asked once, with
+    exactly its typed searches in order and the caller's attributes / sid_encode), every record kept -- two records may carry the same 'sid' value (an encoder need not be
+    injective), a record may have none"""
+    ga = it.module('spil.sid.read.getters.getter_all'); GA = ga.ns['GetFromAll']
+    Stub = PClass('StubSid', [V.OBJECT]); Stub.ns['__str__'] = PBuiltin(lambda it_, self_: self_.attrs['uri'], '__str__'); Stub.ns['__repr__'] = Stub.ns['__str__']
+    ts = []
+    for nme in ('t1', 't2', 't3'):
+        o = PObj(Stub); o.attrs.update({'uri': nme, 'type': 'T'}); ts.append(o)
+    RECS = {'t1': [PDict([('sid', 'same'), ('a', 1)])], 't2': [PDict([('sid', 'same'), ('a', 2)]), PDict([('sid', ''), ('a', 4)])], 't3': [PDict([('a', 3)]), PDict([('sid', ''), ('a', 5)])]}
+    calls = []; ATTRS = ['a']; ENC = PBuiltin(lambda it_, x: 'same', 'enc')
+    GCls = PClass('StubGetter', [V.OBJECT]); GCls.ns['__str__'] = PBuiltin(lambda it_, self_: self_.attrs['name'], '__str__'); GCls.ns['__repr__'] = GCls.ns['__str__']
+    getters = {}
+    for gn in ('G1', 'G2'):
+        g_ = PObj(GCls); g_.attrs['name'] = gn
+        def do_get(it_, search_sids=None, attributes=None, sid_encode=None, _gn=gn, **k):
+            calls.append((_gn, [x.attrs['uri'] for x in search_sids], attributes, sid_encode))
+            return GenList([r for x in search_sids for r in RECS[x.attrs['uri']]])
+        g_.attrs['do_get'] = PBuiltin(do_get, 'do_get'); getters[gn] = g_
+    amap = dict(zip(('t1', 't2', 't3'), assign))
+    ga.ns['unfold_search'] = PBuiltin(lambda it_, s_, *a, **k: list(ts), 'unfold_search')
+    ga.ns['get_getter'] = PBuiltin(lambda it_, sid, config=None, **k: getters.get(amap[sid.attrs['uri']]), 'get_getter')
+    st.inputs['getters'] = list(assign); name = 'C16:GetFromAll.get[abstract getters]'
+    try: got = list(it.call(it.getattr(it.call(GA, [], {}), 'get'), ['any'], {'attributes': ATTRS, 'sid_encode': ENC}))
+    except Raised as e:
+        st.oblige(f'{name}:raises-nothing', False, ('C16',), info={'exception': V.exc_name(e), 'args': repr(e.exc.attrs.get('args'))[:120]}); st.observed = {}; return 'ok'
+    st.observed = {}
+    order = []
+    for t in ('t1', 't2', 't3'):
+        if amap[t] and amap[t] not in order: order.append(amap[t])
+    want = [r for gname in order for t in ('t1', 't2', 't3') if amap[t] == gname for r in RECS[t]]
+    st.oblige(f'{name}:every-record-of-every-getter-is-yielded-in-order-none-dropped', len(got) == len(want) and all(a is b for a, b in zip(got, want)), ('C16',), info={'records': len(got), 'expected': len(want)})
+    per = {}
+    for t in ('t1', 't2', 't3'):
+        if amap[t]: per.setdefault(amap[t], []).append(t)
+    ok = sorted((c_[0], tuple(c_[1])) for c_ in calls) == sorted((f, tuple(v)) for f, v in per.items()) and all(c_[2] is ATTRS and c_[3] is ENC for c_ in calls)
+    st.oblige(f'{name}:every-getter-is-asked-once-with-its-searches-and-the-callers-attributes-and-encoder', ok, ('C16',), info={'calls': repr([(c_[0], c_[1]) for c_ in calls])[:200]})
     return 'ok'
 
 def run_all_get(it, st, c):
